@@ -1,8 +1,312 @@
-import QibModel.Compact
-/-! C13 (under construction) -/
+import QibProofs.Lemmas.CompactFormula
+/-!
+C13 — Compact encoding is exact on its stabiliser code space.
+
+**What is proved here, and what is cited.** The property has two parts. (1) For every open rectangular lattice
+`n0 × n1 ≥ 1` (even/odd extents, single rows/columns — the shape is a *variable* in every theorem below, nothing is
+enumerated) the strings the code builds satisfy the relations of the Derby–Klassen construction: edge operators are
+Hermitian and antisymmetric (`E_ji = −E_ij`), an edge operator anticommutes with the vertex operators of its two
+endpoints and commutes with all others, two edge operators anticommute iff the edges share exactly one vertex, the
+product of the edge operators around a face is the identity on faces carrying an auxiliary qubit and a Hermitian
+involution on every face, all these loop products commute, and the encoded operator of every accepted coefficient
+matrix is Hermitian and commutes with every loop product. These are the theorems `C13_…` below, stated about the
+executable model `QibModel/Compact.lean` at the level of `(z, x, q)` strings and transported to complex matrices with
+the C09 lemmas (`mat_mul`, `commutes_iff`, `hermitian_iff`).
+(2) The spectral statement — *restricted to the joint +1 eigenspace of the loop products the encoded operator has exactly
+the spectrum of the fermionic operator, every level repeated the same number of times* — is **not formalised**. It is the result
+of Derby, Klassen, Bausch and Cubitt (Phys. Rev. B 104, 035118 (2021), Sec. III) applied to exactly the relations
+(1). C13 is therefore claimed as *proof of the hypotheses + cited consequence*; the harness oracle additionally checks the
+spectral statement numerically on every generated encoding with ≤ 11 qubits (failing-input search support only).
+
+Vocabulary. Coordinates are `(x, y)` = (row, column), `x < n0`, `y < n1`; `n = ofcNsites n0 n1` qubits: vertex `(x, y)`
+is qubit `vIdx n1 x y = x·n1 + y`, the face with upper-left corner `(x, y)` and `x + y` even carries the auxiliary qubit
+`fIdx n0 n1 x y`. `EdgeOk n0 n1 ix iy jx jy`: a nearest-neighbour pair of vertices of the rectangle; `FaceIn`: a face of
+the rectangle; `FaceOK`: a face carrying an auxiliary qubit. `vertexStr`, `edgeStr`, `loopStr` are the closed-layer
+strings; `vertexOp`, `edgeOp`, `loopOp`, `encode` the literal layer the driver executes (integer coordinates, rejections,
+strings built with the C09 model's constructors and generated letter table). `anti P R = !(P.commutesWith R)`;
+`neg P` is `P` with `q + 2`; `P.mat n` is the C09 denotation `(-i)^q ⊗ₖ letter`.
+-/
+open Complex Matrix
 namespace Qib.Compact
 open Qib.Pauli Qib.Lattice
 
-theorem C13_vertex_hermitian (n0 n1 x y : Nat) : (vertexStr n0 n1 x y).isHermitian = true := rfl
+/-! ### the driver's literal layer is the closed layer -/
+
+/-- `_encode_vertex_operator`: `Z` on the vertex's own qubit; anything outside the rectangle is a `ValueError` -/
+theorem C13_vertexOp_eq (n0 n1 : ℕ) (c : Int × Int) :
+    (∀ x y : ℕ, c = ((x : Int), (y : Int)) → x < n0 → y < n1 → vertexOp n0 n1 c = .ok (vertexStr n0 n1 x y)) ∧
+    ((¬ ∃ x y : ℕ, c = ((x : Int), (y : Int)) ∧ x < n0 ∧ y < n1) → vertexOp n0 n1 c = .error .valueError) :=
+  ⟨fun _ _ e hx hy => e ▸ vertexOp_ok hx hy, vertexOp_err n0 n1 c⟩
+
+/-- `_encode_edge_operator` on an edge of the rectangle returns the closed-layer string -/
+theorem C13_edgeOp_eq (n0 n1 ix iy jx jy : ℕ) (h : EdgeOk n0 n1 ix iy jx jy) :
+    edgeOp n0 n1 ((ix : Int), (iy : Int)) ((jx : Int), (jy : Int)) = .ok (edgeStr n0 n1 ix iy jx jy) := edgeOp_ok h
+
+/-- … and it returns a value *only* on edges of the rectangle (any other pair of integer coordinates raises) -/
+theorem C13_edgeOp_accepts_only_edges (n0 n1 : ℕ) (i j : Int × Int) (E : PS) (h : edgeOp n0 n1 i j = .ok E) :
+    ∃ ix iy jx jy : ℕ, i = ((ix : Int), (iy : Int)) ∧ j = ((jx : Int), (jy : Int)) ∧ EdgeOk n0 n1 ix iy jx jy ∧
+      E = edgeStr n0 n1 ix iy jx jy := edgeOp_ok_imp n0 n1 i j E h
+
+/-- `edge_to_odd_face_index` on an edge of the rectangle; `none` is the code's `-1` -/
+theorem C13_edgeFace_eq (n0 n1 ix iy jx jy : ℕ) (h : EdgeOk n0 n1 ix iy jx jy) :
+    edgeFace n0 n1 ((ix : Int), (iy : Int)) ((jx : Int), (jy : Int)) =
+      .ok (auxFace n0 n1 (ix == jx) (min ix jx) (min iy jy)) := edgeFace_ok h
+
+/-- the auxiliary qubit of an edge is the auxiliary qubit of the *numbered* (`x + y` even) face among the two faces the
+edge borders, if that face lies in the rectangle; it is a qubit of the register beyond the primary ones -/
+theorem C13_auxFace_spec (n0 n1 : ℕ) (horiz : Bool) (x y : ℕ) :
+    auxFace n0 n1 horiz x y = (auxC n0 n1 horiz x y).map (fun c => fIdx n0 n1 c.1 c.2) ∧
+    (∀ c, auxC n0 n1 horiz x y = some c → FaceOK n0 n1 c.1 c.2 ∧ n0 * n1 ≤ fIdx n0 n1 c.1 c.2 ∧
+      fIdx n0 n1 c.1 c.2 < ofcNsites n0 n1 ∧
+      (c = (x, y) ∨ (horiz = true ∧ c.1 + 1 = x ∧ c.2 = y) ∨ (horiz = false ∧ c.1 = x ∧ c.2 + 1 = y))) := by
+  refine ⟨auxFace_eq_auxC n0 n1 horiz x y, fun c hc => ⟨auxC_faceOK hc, fIdx_ge _ _ _ _, fIdx_lt (auxC_faceOK hc), ?_⟩⟩
+  unfold auxC at hc
+  split at hc
+  · split at hc
+    · cases hc; exact Or.inl rfl
+    · cases hc
+  · split at hc
+    · split at hc
+      · rename_i hh _
+        cases hc; exact Or.inr (Or.inl ⟨hh, by simp only; omega, rfl⟩)
+      · cases hc
+    · split at hc
+      · rename_i hh _
+        cases hc; exact Or.inr (Or.inr ⟨by simpa using hh, rfl, by simp only; omega⟩)
+      · cases hc
+
+/-- the loop product computed by the driver with the literal edge operators and `@` is `loopStr` -/
+theorem C13_loopOp_eq (n0 n1 x y : ℕ) (h : FaceIn n0 n1 x y) :
+    loopOp n0 n1 (x : Int) (y : Int) = .ok (loopStr n0 n1 x y) := loopOp_ok h
+
+/-- qubit numbering: vertices and auxiliary qubits are in range, distinct, and determined by their coordinates -/
+theorem C13_numbering (n0 n1 : ℕ) :
+    (∀ x y, x < n0 → y < n1 → vIdx n1 x y < n0 * n1 ∧ n0 * n1 ≤ ofcNsites n0 n1) ∧
+    (∀ x y x' y', y < n1 → y' < n1 → (vIdx n1 x y = vIdx n1 x' y' ↔ x = x' ∧ y = y')) ∧
+    (∀ x y x' y', FaceOK n0 n1 x y → FaceOK n0 n1 x' y' → (fIdx n0 n1 x y = fIdx n0 n1 x' y' ↔ x = x' ∧ y = y')) ∧
+    (∀ x y, FaceOK n0 n1 x y → n0 * n1 ≤ fIdx n0 n1 x y ∧ fIdx n0 n1 x y < ofcNsites n0 n1) :=
+  ⟨fun _ _ hx hy => ⟨vIdx_lt hx hy, nverts_le n0 n1⟩, fun _ _ _ _ hy hy' => vIdx_inj hy hy',
+    fun _ _ _ _ h h' => fIdx_inj h h', fun _ _ h => ⟨fIdx_ge _ _ _ _, fIdx_lt h⟩⟩
+
+/-! ### edge and vertex operators -/
+
+theorem C13_strings_on_register (n0 n1 : ℕ) :
+    (∀ x y, (vertexStr n0 n1 x y).HasLen (ofcNsites n0 n1)) ∧
+    (∀ ix iy jx jy, EdgeOk n0 n1 ix iy jx jy → (edgeStr n0 n1 ix iy jx jy).HasLen (ofcNsites n0 n1)) ∧
+    (∀ x y, FaceIn n0 n1 x y → (loopStr n0 n1 x y).HasLen (ofcNsites n0 n1)) :=
+  ⟨vertexStr_hasLen n0 n1, fun _ _ _ _ h => edgeStr_hasLen h, fun _ _ h => loopStr_hasLen h⟩
+
+/-- the letters of an edge operator: `X` on one endpoint, `Y` on the other (which one: parity of the row for horizontal,
+of the column for vertical edges), `Y` resp. `X` on the auxiliary qubit if there is one; the sign is `±1` -/
+theorem C13_edge_letters (n0 n1 ix iy jx jy : ℕ) (h : EdgeOk n0 n1 ix iy jx jy) :
+    (edgeStr n0 n1 ix iy jx jy = bodyOf n0 n1 ix iy jx jy ∨ edgeStr n0 n1 ix iy jx jy = neg (bodyOf n0 n1 ix iy jx jy)) ∧
+    (∀ x y, hBody n0 n1 x y = xyStr (ofcNsites n0 n1) (vIdx n1 x (y + 1 - x % 2)) (vIdx n1 x (y + x % 2))
+      ((auxFace n0 n1 true x y).map fun f => (f, true)) 0) ∧
+    (∀ x y, vBody n0 n1 x y = xyStr (ofcNsites n0 n1) (vIdx n1 (x + 1 - y % 2) y) (vIdx n1 (x + y % 2) y)
+      ((auxFace n0 n1 false x y).map fun f => (f, false)) 0) :=
+  ⟨edgeStr_body n0 n1 ix iy jx jy h, fun _ _ => rfl, fun _ _ => rfl⟩
+
+/-- **edge operators are Hermitian** -/
+theorem C13_edge_hermitian (n0 n1 ix iy jx jy : ℕ) (h : EdgeOk n0 n1 ix iy jx jy) :
+    (edgeStr n0 n1 ix iy jx jy).isHermitian = true ∧
+    ((edgeStr n0 n1 ix iy jx jy).mat (ofcNsites n0 n1))ᴴ = (edgeStr n0 n1 ix iy jx jy).mat (ofcNsites n0 n1) := by
+  have hh := isHermitian_of_even _ (edgeStr_q_even h)
+  exact ⟨hh, (hermitian_iff _ _).mp hh⟩
+
+/-- edge operators are involutions: `E_ij² = 1` -/
+theorem C13_edge_sq (n0 n1 ix iy jx jy : ℕ) (h : EdgeOk n0 n1 ix iy jx jy) :
+    (edgeStr n0 n1 ix iy jx jy).mul (edgeStr n0 n1 ix iy jx jy) = PS.identity (ofcNsites n0 n1) ∧
+    (edgeStr n0 n1 ix iy jx jy).mat (ofcNsites n0 n1) * (edgeStr n0 n1 ix iy jx jy).mat (ofcNsites n0 n1) = 1 := by
+  have hs := mul_self_of_herm _ _ (edgeStr_hasLen h) (edgeStr_q_even h)
+  refine ⟨hs, ?_⟩
+  rw [← mat_mul _ _ _ (edgeStr_hasLen h) (edgeStr_hasLen h), hs, identity_mat]
+
+/-- **antisymmetry**: `E_ji = −E_ij` -/
+theorem C13_edge_antisym (n0 n1 ix iy jx jy : ℕ) (h : EdgeOk n0 n1 ix iy jx jy) :
+    edgeStr n0 n1 jx jy ix iy = neg (edgeStr n0 n1 ix iy jx jy) ∧
+    (edgeStr n0 n1 jx jy ix iy).mat (ofcNsites n0 n1) = - (edgeStr n0 n1 ix iy jx jy).mat (ofcNsites n0 n1) := by
+  have e := edgeStr_rev h
+  exact ⟨e, by rw [e, mat_neg]⟩
+
+/-- vertex operators are Hermitian involutions and commute with each other -/
+theorem C13_vertex_ops (n0 n1 x y x' y' : ℕ) (hx : x < n0) (hy : y < n1) :
+    (vertexStr n0 n1 x y).isHermitian = true ∧
+    (vertexStr n0 n1 x y).mul (vertexStr n0 n1 x y) = PS.identity (ofcNsites n0 n1) ∧
+    (vertexStr n0 n1 x y).zf (vIdx n1 x y) = true ∧ (vertexStr n0 n1 x y).xf (vIdx n1 x y) = false ∧
+    (vertexStr n0 n1 x y).commutesWith (vertexStr n0 n1 x' y') = true := by
+  have hk := vIdx_lt_nsites (n0 := n0) (n1 := n1) hx hy
+  have hl := identity_hasLen (ofcNsites n0 n1)
+  refine ⟨rfl, mul_self_of_herm _ _ (vertexStr_hasLen n0 n1 x y) rfl, ?_, ?_, ?_⟩
+  · rw [vertexStr, zf_setL, hl.1]; simp [hk]
+  · rw [vertexStr, xf_setL, hl.2]; simp [hk]
+  · rw [← anti_false_iff]
+    unfold vertexStr
+    have z0 : (PS.identity (ofcNsites n0 n1)).z.getD (vIdx n1 x y) false = false := getD_replicate_false _ _
+    have x0 : (PS.identity (ofcNsites n0 n1)).x.getD (vIdx n1 x y) false = false := getD_replicate_false _ _
+    rw [anti_setL _ _ _ _ _ (by rw [hl.1]; exact hk) (by rw [hl.2]; exact hk) z0 x0, anti_identity_left]
+    have hx' : (setL (PS.identity (ofcNsites n0 n1)) (vIdx n1 x' y') true false).x.getD (vIdx n1 x y) false = false := by
+      show (setL (PS.identity (ofcNsites n0 n1)) (vIdx n1 x' y') true false).xf (vIdx n1 x y) = false
+      rw [xf_setL]
+      split
+      · rfl
+      · exact getD_replicate_false _ _
+    rw [hx']; rfl
+
+/-- **edge/vertex relation**: `E_ij` anticommutes with `V_i` and `V_j` and commutes with every other vertex operator -/
+theorem C13_edge_vertex_rel (n0 n1 ix iy jx jy a b : ℕ) (h : EdgeOk n0 n1 ix iy jx jy) (ha : a < n0) (hb : b < n1) :
+    ((edgeStr n0 n1 ix iy jx jy).commutesWith (vertexStr n0 n1 a b) = false ↔ ((a = ix ∧ b = iy) ∨ (a = jx ∧ b = jy))) ∧
+    (((a = ix ∧ b = iy) ∨ (a = jx ∧ b = jy)) →
+      (edgeStr n0 n1 ix iy jx jy).mat (ofcNsites n0 n1) * (vertexStr n0 n1 a b).mat (ofcNsites n0 n1) =
+        - ((vertexStr n0 n1 a b).mat (ofcNsites n0 n1) * (edgeStr n0 n1 ix iy jx jy).mat (ofcNsites n0 n1))) ∧
+    (¬ ((a = ix ∧ b = iy) ∨ (a = jx ∧ b = jy)) →
+      (edgeStr n0 n1 ix iy jx jy).mat (ofcNsites n0 n1) * (vertexStr n0 n1 a b).mat (ofcNsites n0 n1) =
+        (vertexStr n0 n1 a b).mat (ofcNsites n0 n1) * (edgeStr n0 n1 ix iy jx jy).mat (ofcNsites n0 n1)) := by
+  have e := anti_edge_vertex n0 n1 ix iy jx jy a b h ha hb
+  have lE := edgeStr_hasLen h
+  have lV := vertexStr_hasLen n0 n1 a b
+  refine ⟨?_, fun hc => ?_, fun hc => ?_⟩
+  · rw [← anti_true_iff, e]; simp
+  · exact mat_anticomm _ _ _ lE lV (by rw [e]; simpa using hc)
+  · exact mat_comm_of_not_anti _ _ _ lE lV (by rw [e]; simpa using hc)
+
+/-- **edge/edge relation**: `E_ij` and `E_kl` anticommute iff the edges share exactly one vertex (a common endpoint, but
+not the same pair of endpoints); otherwise (disjoint, or the same edge in either orientation) they commute -/
+theorem C13_edge_edge_rel (n0 n1 ix iy jx jy kx ky lx ly : ℕ)
+    (h : EdgeOk n0 n1 ix iy jx jy) (h' : EdgeOk n0 n1 kx ky lx ly) :
+    ((edgeStr n0 n1 ix iy jx jy).commutesWith (edgeStr n0 n1 kx ky lx ly) = false ↔ ShareOne ix iy jx jy kx ky lx ly) ∧
+    (ShareOne ix iy jx jy kx ky lx ly →
+      (edgeStr n0 n1 ix iy jx jy).mat (ofcNsites n0 n1) * (edgeStr n0 n1 kx ky lx ly).mat (ofcNsites n0 n1) =
+        - ((edgeStr n0 n1 kx ky lx ly).mat (ofcNsites n0 n1) * (edgeStr n0 n1 ix iy jx jy).mat (ofcNsites n0 n1))) ∧
+    (¬ ShareOne ix iy jx jy kx ky lx ly →
+      (edgeStr n0 n1 ix iy jx jy).mat (ofcNsites n0 n1) * (edgeStr n0 n1 kx ky lx ly).mat (ofcNsites n0 n1) =
+        (edgeStr n0 n1 kx ky lx ly).mat (ofcNsites n0 n1) * (edgeStr n0 n1 ix iy jx jy).mat (ofcNsites n0 n1)) := by
+  have e := anti_edge_edge n0 n1 ix iy jx jy kx ky lx ly h h'
+  have l1 := edgeStr_hasLen h
+  have l2 := edgeStr_hasLen h'
+  refine ⟨?_, fun hc => ?_, fun hc => ?_⟩
+  · rw [← anti_true_iff, e]; simp
+  · exact mat_anticomm _ _ _ l1 l2 (by rw [e]; simpa using hc)
+  · exact mat_comm_of_not_anti _ _ _ l1 l2 (by rw [e]; simpa using hc)
+
+/-! ### loop products around the faces -/
+
+/-- **on a face carrying an auxiliary qubit the loop product is the identity** (string: all letters `I`, phase `q = 0`) -/
+theorem C13_loop_identity_on_aux_faces (n0 n1 x y : ℕ) (h : FaceOK n0 n1 x y) :
+    loopStr n0 n1 x y = PS.identity (ofcNsites n0 n1) ∧ (loopStr n0 n1 x y).mat (ofcNsites n0 n1) = 1 := by
+  have e := loopStr_identity h
+  exact ⟨e, by rw [e, identity_mat]⟩
+
+/-- **on every face of the rectangle the loop product is a Hermitian involution** -/
+theorem C13_loop_involution_elsewhere (n0 n1 x y : ℕ) (h : FaceIn n0 n1 x y) :
+    (loopStr n0 n1 x y).isHermitian = true ∧
+    (loopStr n0 n1 x y).mul (loopStr n0 n1 x y) = PS.identity (ofcNsites n0 n1) ∧
+    ((loopStr n0 n1 x y).mat (ofcNsites n0 n1))ᴴ = (loopStr n0 n1 x y).mat (ofcNsites n0 n1) ∧
+    (loopStr n0 n1 x y).mat (ofcNsites n0 n1) * (loopStr n0 n1 x y).mat (ofcNsites n0 n1) = 1 := by
+  have hh := isHermitian_of_even _ (loopStr_q_even h)
+  have hs := loopStr_sq h
+  refine ⟨hh, hs, (hermitian_iff _ _).mp hh, ?_⟩
+  rw [← mat_mul _ _ _ (loopStr_hasLen h) (loopStr_hasLen h), hs, identity_mat]
+
+/-- **loop products commute with each other** -/
+theorem C13_loops_commute (n0 n1 x y x' y' : ℕ) (h : FaceIn n0 n1 x y) (h' : FaceIn n0 n1 x' y') :
+    (loopStr n0 n1 x y).commutesWith (loopStr n0 n1 x' y') = true ∧
+    (loopStr n0 n1 x y).mat (ofcNsites n0 n1) * (loopStr n0 n1 x' y').mat (ofcNsites n0 n1) =
+      (loopStr n0 n1 x' y').mat (ofcNsites n0 n1) * (loopStr n0 n1 x y).mat (ofcNsites n0 n1) := by
+  have e := anti_loop_loop h h'
+  exact ⟨(anti_false_iff _ _).mp e, mat_comm_of_not_anti _ _ _ (loopStr_hasLen h) (loopStr_hasLen h') e⟩
+
+/-- loop products commute with every vertex operator and every edge operator -/
+theorem C13_loop_commutes_with_generators (n0 n1 x y : ℕ) (h : FaceIn n0 n1 x y) :
+    (∀ a b, a < n0 → b < n1 → (loopStr n0 n1 x y).commutesWith (vertexStr n0 n1 a b) = true) ∧
+    (∀ kx ky lx ly, EdgeOk n0 n1 kx ky lx ly → (loopStr n0 n1 x y).commutesWith (edgeStr n0 n1 kx ky lx ly) = true) :=
+  ⟨fun _ _ ha hb => (anti_false_iff _ _).mp (anti_loop_vertex h ha hb),
+    fun _ _ _ _ hk => (anti_false_iff _ _).mp (anti_loop_edge h hk)⟩
+
+/-! ### the encoded operator -/
+
+/-- the encoder returns the register size of the encoding lattice and strings of that length -/
+theorem C13_encoded_register (inp : Input) (op : PauliOp GQ) (n : ℕ) (hs : encode inp = .ok (op, n)) :
+    ∃ n0 n1, inp.shape = [n0, n1] ∧ n = ofcNsites n0 n1 ∧ ∀ e ∈ op, e.1.HasLen n := by
+  obtain ⟨n0, n1, h1, h2, h3⟩ := encode_good inp op n hs
+  exact ⟨n0, n1, h1, h2, fun e he => h2 ▸ (h3 e he).2.1⟩
+
+/-- **the encoded operator is Hermitian**: every weighted string answers Hermitian (so `PauliOperator.is_hermitian()` is
+`True`) and the matrix `Σ weight · string` equals its conjugate transpose — for every input the encoder accepts -/
+theorem C13_encoded_hermitian (inp : Input) (op : PauliOp GQ) (n : ℕ) (hs : encode inp = .ok (op, n)) :
+    PauliOp.isHermitian op = true ∧ (PauliOp.mat GQ.toC n op)ᴴ = PauliOp.mat GQ.toC n op := by
+  obtain ⟨n0, n1, -, -, h3⟩ := encode_good inp op n hs
+  have hh : PauliOp.isHermitian op = true := by
+    unfold PauliOp.isHermitian
+    rw [List.all_eq_true]
+    exact fun e he => (h3 e he).1
+  exact ⟨hh, pauliOp_isHermitian_sound n op hh⟩
+
+/-- **the encoded operator commutes with the loop product of every face**: string by string, and as matrices -/
+theorem C13_encoded_commutes_with_loops (inp : Input) (op : PauliOp GQ) (n : ℕ) (hs : encode inp = .ok (op, n)) :
+    ∃ n0 n1, inp.shape = [n0, n1] ∧ n = ofcNsites n0 n1 ∧ ∀ x y, FaceIn n0 n1 x y →
+      (∀ e ∈ op, (loopStr n0 n1 x y).commutesWith e.1 = true) ∧
+      PauliOp.mat GQ.toC n op * (loopStr n0 n1 x y).mat n = (loopStr n0 n1 x y).mat n * PauliOp.mat GQ.toC n op := by
+  obtain ⟨n0, n1, h1, h2, h3⟩ := encode_good inp op n hs
+  refine ⟨n0, n1, h1, h2, fun x y hf => ⟨fun e he => (anti_false_iff _ _).mp ((h3 e he).2.2 x y hf), ?_⟩⟩
+  subst h2
+  exact pauliOp_mat_comm _ _ _ (loopStr_hasLen hf) op (fun e he => ⟨(h3 e he).2.1, (h3 e he).2.2 x y hf⟩)
+
+/-- **the encoded operator is the Derby–Klassen image of the fermionic operator**: its matrix is, term by term,
+`Σᵢ cᵢᵢ (1 − Vᵢ)/2 + Σ_{i<j} c_ij (i/2)(E_ij V_j − E_ij V_i)` (`termMat`; `Vm i`, `Em i j` are the matrices of the vertex /
+edge strings of the fermionic sites `i`, `j` in C order). Together with the relations above this is the complete list of
+hypotheses of the cited theorem. -/
+theorem C13_encoded_matrix_formula (inp : Input) (op : PauliOp GQ) (n : ℕ) (hs : encode inp = .ok (op, n)) :
+    ∃ n0 n1, inp.shape = [n0, n1] ∧ n = ofcNsites n0 n1 ∧
+      PauliOp.mat GQ.toC (ofcNsites n0 n1) op = (inp.terms.map fun t => termMat n0 n1 t.coeffs).sum ∧
+      (∀ c, termMat n0 n1 c =
+        ((List.range (n0 * n1)).map fun i => ((cget c i i : ℚ) : ℂ) • ((1 / 2 : ℂ) • (1 - Vm n0 n1 i))).sum +
+        ((pairs (n0 * n1)).map fun ij => ((cget c ij.1 ij.2 : ℚ) : ℂ) •
+          ((I / 2) • (Em n0 n1 ij.1 ij.2 * Vm n0 n1 ij.2 - Em n0 n1 ij.1 ij.2 * Vm n0 n1 ij.1))).sum) ∧
+      (∀ i j, (i, j) ∈ pairs (n0 * n1) ↔ i < j ∧ j < n0 * n1) := by
+  obtain ⟨n0, n1, h1, h2, h3⟩ := encode_mat inp op n hs
+  exact ⟨n0, n1, h1, h2, h3, fun _ => rfl, mem_pairs _⟩
+
+/-- **the encoder accepts exactly the admissible inputs** (so the theorems above are not vacuous): one fermionic field on an
+open two-dimensional integer lattice, every term of creation–annihilation type with float64 coefficients that pass
+`np.allclose(c, c.T)` and whose non-zero upper-triangle entries connect nearest neighbours; an exactly symmetric matrix
+passes the closeness test, and "nearest neighbours" (`IntegerLattice.adjacency_matrix`, C14) are exactly the edges of
+the rectangle. -/
+theorem C13_encode_accepts_iff (inp : Input) (n0 n1 : ℕ) :
+    ((∃ op, encode inp = .ok (op, ofcNsites n0 n1) ∧ inp.shape = [n0, n1]) ↔ Admissible inp n0 n1) ∧
+    (∀ c : List (List Rat), (∀ i j, i < n0 * n1 → j < n0 * n1 → cget c i j = cget c j i) → allcloseT (n0 * n1) c = true) ∧
+    (∀ i j, i < n0 * n1 → j < n0 * n1 →
+      (gridAdj [n0, n1] [false, false] i j = true ↔ EdgeOk n0 n1 (i / n1) (i % n1) (j / n1) (j % n1))) :=
+  ⟨encode_ok_iff inp n0 n1, allcloseT_of_symm (n0 * n1), fun _ _ hi hj => ⟨gridAdj_edgeOk, edgeOk_gridAdj hi hj⟩⟩
+
+/-- what the encoder inserts: `V_i` with a real weight, the identity with a real weight, `E_ij V_j` and `E_ij V_i` with
+imaginary weights — each such weighted string is Hermitian and commutes with every loop product -/
+theorem C13_inserted_terms (n0 n1 : ℕ) (r : Rat) :
+    (∀ x y, x < n0 → y < n1 → Good n0 n1 (vertexStr n0 n1 x y, realW r)) ∧
+    Good n0 n1 (PS.identity (ofcNsites n0 n1), realW r) ∧
+    (∀ ix iy jx jy, EdgeOk n0 n1 ix iy jx jy →
+      Good n0 n1 ((edgeStr n0 n1 ix iy jx jy).mul (vertexStr n0 n1 jx jy), imagW r) ∧
+      Good n0 n1 ((edgeStr n0 n1 ix iy jx jy).mul (vertexStr n0 n1 ix iy), imagW r)) :=
+  ⟨fun x y hx hy => good_vertex n0 n1 x y hx hy r, good_identity n0 n1 r,
+    fun _ _ _ _ h => ⟨good_edge_vertex _ _ _ _ _ _ _ _ h h.2.2.1 h.2.2.2.1 (Or.inr ⟨rfl, rfl⟩) r,
+      good_edge_vertex _ _ _ _ _ _ _ _ h h.1 h.2.1 (Or.inl ⟨rfl, rfl⟩) r⟩⟩
+
+/-! ### non-vacuity and samples (tests, not proofs of the property) -/
+
+example : EdgeOk 3 3 0 0 0 1 ∧ EdgeOk 3 3 2 1 1 1 ∧ ¬ EdgeOk 3 3 2 2 2 3 ∧ ¬ EdgeOk 3 3 0 0 1 1 := by decide
+example : FaceOK 3 3 1 1 ∧ FaceIn 3 3 0 1 ∧ ¬ FaceOK 3 3 0 1 ∧ ¬ FaceIn 3 3 2 0 := by decide
+example : ShareOne 0 0 0 1 0 1 1 1 ∧ ¬ ShareOne 0 0 0 1 0 1 0 0 ∧ ¬ ShareOne 0 0 0 1 1 0 1 1 := by decide
+/-- `E_(0,0)(0,1) = −Y₀X₁Y₉` on the 3×3 lattice (11 qubits), as the code prints it -/
+example : (edgeStr 3 3 0 0 0 1).toChars = "-YXIIIIIIIYI".toList := by decide
+/-- the loop product of the plain face (0,1) of the 3×3 lattice: `Z` on the four corners, `X`, `Y` on the two neighbouring
+auxiliary qubits; of the auxiliary face (1,1): the identity -/
+example : (loopStr 3 3 0 1).toChars = "IZZIZZIIIXY".toList ∧ loopStr 3 3 1 1 = PS.identity 11 := by decide
+example : edgeOp 3 3 (0, 0) (0, 1) = .ok (edgeStr 3 3 0 0 0 1) ∧ edgeOp 3 3 (0, 0) (1, 1) = .error .assertion ∧
+    edgeOp 3 3 (2, 2) (2, 3) = .error .valueError ∧ edgeFace 3 3 (0, 1) (0, 2) = .ok none := by decide
+/-- a 1×2 chain: `H = ½(1−Z₀)·½ + …`, five weighted strings, register of 2 qubits -/
+example : (encode ⟨1, true, true, [1, 2], [false, false], [⟨true, true, [[1 / 2, 3 / 4], [3 / 4, -1]]⟩]⟩).map
+    (fun r => (r.1.length, r.2)) = .ok (5, 2) := by decide +kernel
+example : (encode ⟨1, true, true, [2, 2], [true, false], []⟩).map (fun r => r.2) = .error .runtimeError ∧
+    (encode ⟨1, true, true, [2, 2], [false, false], [⟨true, false, []⟩]⟩).map (fun r => r.2) = .error .valueError := by
+  decide
 
 end Qib.Compact
